@@ -30,6 +30,7 @@ func init() {
 			{Name: "pairs", N: tierN(240, 6000), Run: c11Pairs},
 			{Name: "big", N: tierN(40, 120), Run: c11Big},
 			{CPUBudget: 900, Name: "hugeunion", N: func(string) int { return 1 }, Run: c11HugeUnion}, // (20 s quick, 90 s thorough on this machine)
+			{Name: "radix", N: func(string) int { return 3 }, Run: c11Radix},
 			{Name: "seqlists", N: func(string) int { return 6 + 36 + 216 + 1296 }, Run: c11SeqLists},
 			{Name: "rand", N: tierN(150000, 8000000), Run: c11Random},
 		},
@@ -518,4 +519,72 @@ func c11HugeUnion(c *Case) {
 		c.Nontrivial("hugeunion|" + ex.src)
 	}
 	c.Sample(map[string]interface{}{"family": "hugeunion", "nodes": elems + texts + 1})
+}
+
+// c11Radix: equally labelled nodes at EVERY combination of sibling positions 1..70 on two adjacent levels (and 1..36
+// on three): an identity that folds the position path arithmetically (code*B + position, for any base B up to the
+// fan-out) maps (i, j+B) and (i+1, j) to one value; a rendered key without separators confuses (1,11) and (11,1).
+// All such pairs are present at once; the union must deliver every node, each once.
+func c11Radix(c *Case) {
+	d := xdoc.NewDoc()
+	r := d.Root.AddElem("", "r", "")
+	var exprs []string
+	switch c.Index {
+	case 0: // two levels, empty same-named leaves
+		for i := 0; i < 70; i++ {
+			p := r.AddElem("", "p", "")
+			for j := 0; j < 70; j++ {
+				p.AddElem("", "b", "")
+			}
+		}
+		exprs = []string{"//b | //b", "/r/p/b | //b[1]", "//b[position() mod 2 = 0] | //b[position() mod 2 = 1]", "/r/p/(b, b)", "//p | //b"}
+	case 1: // three levels, same text under every leaf
+		for i := 0; i < 36; i++ {
+			p := r.AddElem("", "p", "")
+			for j := 0; j < 36; j++ {
+				q := p.AddElem("", "q", "")
+				for k := 0; k < 3; k++ {
+					q.AddElem("", "b", "").AddText("x")
+				}
+			}
+		}
+		exprs = []string{"//b | //b", "//text() | //b/text()", "//q/b[1] | //q/b[2] | //q/b[3]", "/r/p/q/(b, b)", "//q | //b/text()"}
+	default: // text and comment runs directly below 70 parents
+		for i := 0; i < 70; i++ {
+			p := r.AddElem("", "p", "")
+			for j := 0; j < 35; j++ {
+				p.AddText("x")
+				p.AddComment("x")
+			}
+		}
+		exprs = []string{"//text() | //text()", "//comment() | //p/comment()", "//p/node() | //text()", "/r/p/(text(), comment())"}
+	}
+	d.Finish()
+	for _, src := range exprs {
+		ast := mustParse(src)
+		want, ok, why := refNodeSet(ast, xref.NewCtx(d.Root))
+		if !ok {
+			panic("C11 radix: reference: " + why + " on " + src)
+		}
+		ce := c.compile(src, func() map[string]interface{} { return map[string]interface{}{"doc": fmt.Sprintf("radix document %d", c.Index)} })
+		if ce == nil {
+			return
+		}
+		got := c.RunSelect(ce, d.Root)
+		gs, dup := AsSet(got.Nodes)
+		if got.Aborted() || dup || !SameNodes(gs, want) {
+			obs := xdoc.Labels(got.Nodes)
+			if len(obs) > 400 {
+				obs = obs[:400] + "..."
+			}
+			c.Violation("EQUALLY-LABELLED-NODES-TREATED-AS-ONE", map[string]interface{}{"doc": fmt.Sprintf("radix document %d (equally labelled nodes at all sibling positions 1..70 x 1..70 / 1..36 x 1..36 x 1..3)", c.Index),
+				"expr": src, "expected_count": len(want), "observed_count": len(got.Nodes), "observed_distinct": len(gs), "observed_sequence": obs, "abort": fmt.Sprint(got.Panic.String(), got.Budget)})
+			return
+		}
+		c.Count("radix")
+		c.Nontrivial(fmt.Sprintf("radix|%d|%s", c.Index, src))
+	}
+	c.SampleEvery(1, func() interface{} {
+		return map[string]interface{}{"family": "radix", "document": c.Index, "nodes": len(d.Nodes), "exprs": exprs}
+	})
 }
